@@ -977,6 +977,9 @@ def run(ctx):
         if len(acc) >= 40:
             flush_model(res, ctx, acc, seen)
     flush_model(res, ctx, acc, seen)
+    # the API / timer blocks of the closed composite (registration, browser and lookup start/stop, purge, user listeners): own stream
+    from . import c15api
+    c15api.run_stream(res, ctx, C.Budget(tier, 150, 3000).n * (2 if ctx["widened"] else 1))
     res.violations.sort(key=lambda v: (0 if "escape" in v["sig"] or "loop-exception" in v["sig"] else 1, v["sig"], len(v["case"].get("items", []))))
     for c in res.violations[:1]:
         res.sample({"sig": c["sig"], "items": len(c["case"].get("items", []))})
@@ -985,6 +988,9 @@ def run(ctx):
 
 def replay(body):
     case = body.get("case", body)
+    if "steps" in case or "scenario" in case:
+        from . import c15api
+        return c15api.replay(body)
     if "hex" in case and "items" not in case:
         d = bytes.fromhex(case["hex"])
         e = encodable_impl(d)
